@@ -35,7 +35,7 @@ VIOL = {10: "rewards credited in a block (validators' chunks + all delegator rew
         31: "a withdrawal paid more than the matured balance",
         33: "a validator's matured rewards (balance + withdrawn) exceed what was ever credited to it (sum of its chunks), e.g. a chunk matured twice across an export/import",
         34: "all matured rewards together exceed the total distributed",
-        37: "at the start of a cycle a year's TillLastCycle differs from its Distributed: the snapshot at the previous cycle end was skipped",
+        37: "at the start of a cycle the running year's TillLastCycle differs from its Distributed: the snapshot at the previous cycle end was skipped",
         38: "at the first block of a cycle pulled * forecast exceeds the year's supply minus what was distributed when the cycle began",
         35: "a block reported less to ConsumeRewards (TotalDistributed / year Distributed) than it really credited to validators and delegators: the year books under-count the payments",
         36: "what was really credited during a reward year exceeds the year's supply",
